@@ -275,8 +275,8 @@ def cond_merge_consumers(ix, f, node):
                 use = usage_of(g.node, n)
                 if use in ("set(keys)", "get", "keys-into-set", "return", "merge"):
                     continue
-                if q == "tensora.compile._tensor_method.TensorMethod.__call__":
-                    continue  # own table entry
+                if g.module == EVALUATE_LAYER:
+                    continue  # order-observing uses there are sites of their own (cond_evaluate_layer)
                 bad.append(f"{q}: {use}")
     if bad:
         return f"order-observing consumers of index_participants(): {bad}"
@@ -373,6 +373,64 @@ def cond_call_index_loop(ix, f, node):
     return None
 
 
+TEXT_SINKS = ("generate_code", "generate_module_tensora", "make_problem", "Problem", "cachable_tensor_method", "TensorMethod", "write_text", "echo")
+EVALUATE_LAYER = "tensora.compile._tensor_method"
+
+
+def cond_evaluate_layer(ix, f, node):
+    """A site in the argument-validation layer of evaluate (TensorMethod): generated text is a function of the
+    Problem handed to generate_*; the order observed here matters only if a value computed from it reaches such a
+    call (module-wide taint over locals and self attributes) or the loop body writes output directly.  The order in
+    which kernel ARGUMENTS are passed is C10.call-semantics' obligation."""
+    pm = _parent_map(f.node)
+    stmt = node
+    while stmt in pm and not isinstance(stmt, ast.stmt):
+        stmt = pm[stmt]
+    tainted = set()
+
+    def targets_of(s):
+        out = set()
+        for n in ast.walk(s):
+            if isinstance(n, (ast.Assign, ast.AugAssign, ast.AnnAssign)):
+                for t in n.targets if isinstance(n, ast.Assign) else [n.target]:
+                    for x in ast.walk(t):
+                        if isinstance(x, ast.Name):
+                            out.add(x.id)
+                        elif isinstance(x, ast.Attribute) and isinstance(x.value, ast.Name) and x.value.id == "self":
+                            out.add(u(x))
+            if isinstance(n, ast.Call) and isinstance(n.func, ast.Attribute) and n.func.attr in ("append", "extend", "add", "update", "setdefault", "insert") and isinstance(n.func.value, (ast.Name, ast.Attribute)):
+                out.add(u(n.func.value))
+            if isinstance(n, ast.Call) and isinstance(n.func, ast.Attribute) and n.func.attr in ("write", "write_text", "echo"):
+                out.add("<output>")
+        return out
+
+    tainted |= targets_of(stmt)
+    if "<output>" in tainted:
+        return "the loop writes output directly"
+    module_funcs = [g for g in ix.funcs.values() if g.module == f.module]
+    changed = True
+    while changed:
+        changed = False
+        for g in module_funcs:
+            for n in ast.walk(g.node):
+                if isinstance(n, (ast.Assign, ast.AugAssign, ast.AnnAssign)) and getattr(n, "value", None) is not None:
+                    mentioned = {u(x) for x in ast.walk(n.value) if isinstance(x, ast.Name) or (isinstance(x, ast.Attribute) and isinstance(x.value, ast.Name) and x.value.id == "self")}
+                    if mentioned & tainted:
+                        new = targets_of(n) - tainted
+                        if new:
+                            tainted |= new
+                            changed = True
+    for g in module_funcs:
+        for n in ast.walk(g.node):
+            if isinstance(n, ast.Call) and u(n.func).split(".")[-1] in TEXT_SINKS:
+                for a in list(n.args) + [k.value for k in n.keywords]:
+                    mentioned = {u(x) for x in ast.walk(a) if isinstance(x, ast.Name) or (isinstance(x, ast.Attribute) and isinstance(x.value, ast.Name) and x.value.id == "self")}
+                    hit = sorted(mentioned & tainted)
+                    if hit:
+                        return f"{hit[0]}, computed in hash order, reaches {u(n.func)}(...) in {g.name}"
+    return None
+
+
 BENIGN = {
     # (function, kind) -> (reason, side-condition checker).  The site's own text is not part of the key
     # (renaming a local must not matter): the side condition decides, per site, from the construct's shape.
@@ -385,10 +443,6 @@ BENIGN = {
         cond_merge_consumers,
     ),
     ("tensora.expression.ast.Assignment.__post_init__", "pop"): ("flows only into an exception argument", cond_pop_into_exception),
-    ("tensora.compile._tensor_method.TensorMethod.__call__", "for"): (
-        "evaluate path, not text generation; body only records sizes and raises",
-        cond_call_index_loop,
-    ),
 }
 
 
@@ -405,6 +459,8 @@ def rule_hash_order(ctx, ix, reach):
         f = ix.funcs[q]
         key = f"{ix.rel(f.module)}:{q.split(f.module + '.', 1)[-1]}:{what}:{text}"
         entry = BENIGN.get((q, what))
+        if entry is None and f.module == EVALUATE_LAYER:
+            entry = ("argument validation of evaluate, not text generation: nothing computed from it reaches a generate_*/Problem call", cond_evaluate_layer)
         if entry is None:
             ctx.fail(
                 "C15.hash-order-sites",
